@@ -156,7 +156,10 @@ def runScriptWith (c : ScriptIn) (dflt : Bool) : String :=
         (match parse pcfg t2 with
          | .error e => some (r1.1, s!"parseerr {encPFail e}")
          | .ok recs2 =>
-           let r2 := runMulti E { cfg with labels := cfg.labels ++ c.labels2 } r1.1 recs2
+           -- pseudo label `@shutdown`: `Runner::shutdown` between the two scripts
+           let sb := c.labels2.contains (kw "@shutdown")
+           let w1 := if sb then shutdownAll r1.1 else r1.1
+           let r2 := runMulti E { cfg with labels := cfg.labels ++ c.labels2.filter (· != kw "@shutdown") } w1 recs2
            some (r2.1, showRes r2.1.trace r2.2))
       | _, _, _ => none
     let wEnd := match second with | some (w2, _) => w2 | none => r1.1
@@ -670,6 +673,8 @@ def opFrame : Rd String := do
     | fuel + 1, s :: rest =>
       -- an engine that closed only its output still reads (and logs) requests; one that exited does not
       let reqs' := if exited then reqs else reqs ++ [hxBytes (encodeRequest (utf8 s.sql))]
+      -- `late-reply`: the caller gives up before the reply arrives and shuts the driver down
+      if s.kind == "late-reply" then (acc ++ ["abandoned"], reqs', closed) else
       let closes := closed || s.kind == "partial-close" || s.kind == "partial-exit"
       let exits := exited || s.kind == "partial-exit"
       let fd : Feed := { chunks := if closed then [] else s.chunks, closes := closes }
